@@ -1,176 +1,29 @@
 /-
-  C14 model: the four solver set-ups of `sigpy.app.LinearLeastSquares` as functions from the
-  options to a *problem description* (which linear system / gradient map / prox operators /
-  strong-convexity constants / step-size rule are handed to the solver class).
-
-  ONE definition of every set-up, generic over the scalar type `S` and the vector spaces
-  `V` (unknown `x`), `W` (data `y`), `U` (range of `G`) through core type classes only
-  (`Add`, `Sub`, `Neg`, `SMul`, `Zero`, `One`, `Mul`, `Div`, decidable `=`/`<` on scalars).
-  The driver executes them over `S = Rat`, `V = W = U = RV` (lists of rationals);
+  C14 model.  The four solver set-ups of `sigpy.app.LinearLeastSquares` are NOT written here: they are
+  regenerated from the Python source on every check by `harness/translate/gen_c14.py` into
+  `Gen/C14Setup.lean` (`cgArgs`, `gmArgs`, `pdhgArgsNoG/G`, `admmArgsNoG/G`: the arguments handed to the
+  solver classes, as terms over the vocabulary of `Model/C14Base.lean`, generic over the scalar type `S`
+  and the vector spaces `V` (unknown `x`), `W` (data `y`), `U` (range of `G`) through core type classes).
+  The driver executes those generated definitions over `S = Rat`, `V = W = U = RV` (lists of rationals);
   `Props/C14.lean` reasons about the very same definitions over real inner-product spaces.
+  The decision logic of `_get_alg` is generated as well (`Gen/C14Select.lean`).
 
-  The decision logic of `_get_alg` is NOT written here: it is regenerated from the Python source by
-  `harness/translate/gen_c14.py` into `Gen/C14Select.lean`; only its result type lives here.
-
-  Second half: `Rat` machines for the four solver classes (`ConjugateGradient`, `GradientMethod`,
-  `PrimalDualHybridGradient`, `ADMM`, transcribed from sigpy/alg.py) so that whole runs of the real
-  `LinearLeastSquares` can be compared with the model (the solver classes themselves are the subject
-  of C12/C13/C15; here they only carry the set-ups).  `sqrt` (Nesterov `t`, PDHG `theta`) is
-  replaced by a 2^-64-accurate rational approximation — these machines are compared with a tolerance
-  and no theorem is stated about them.  Core Lean only.
+  Hand-written here: `objective()`, and `Rat` machines for the four solver classes (`ConjugateGradient`,
+  `GradientMethod`, `PrimalDualHybridGradient`, `ADMM`, transcribed from sigpy/alg.py) which only CARRY
+  the generated set-ups so that whole runs of the real `LinearLeastSquares` can be compared with the
+  model (the solver classes themselves are the subject of C12/C13/C15).  `sqrt` (Nesterov `t`, PDHG
+  `theta`) is replaced by a 2^-64-accurate rational approximation — these machines are compared with a
+  tolerance and no theorem is stated about them.  Core Lean only.
 -/
+import SigpyVerif.Model.C14Base
+import SigpyVerif.Gen.C14Setup
 namespace SigpyVerif.C14
-
-/-! ## result of `_get_alg` (the generated decision function returns this) -/
-
-/-- what `LinearLeastSquares._get_alg` does: calls `self._get_<name>()`, raises `ValueError`
-    (tag = `<solver branch>:<attribute tested>` or `invalid`), or falls off the end. -/
-inductive Out where
-  | built (name : String)
-  | raised (tag : String)
-  | cont (solver : Option String)
-  deriving DecidableEq, Repr
+open SigpyVerif.Gen.C14
 
 section Setup
 variable {S V W U : Type}
 variable [Zero S] [One S] [Add S] [Mul S] [Div S] [DecidableEq S] [LT S] [DecidableLT S]
 variable [Add V] [Sub V] [SMul S V] [Add W] [Sub W] [Neg W] [SMul S W] [Add U] [Sub U] [SMul S U]
-
-/-- `if self.z is not None: b = b + self.lamda * self.z` -/
-def addLamZ (lam : S) (z : Option V) (b : V) : V :=
-  match z with
-  | none => b
-  | some z => b + lam • z
-
-/-! ### `_get_ConjugateGradient`: `ConjugateGradient(AHA, AHy, x, P=P)` -/
-
-/-- `AHA = A.N; if lamda != 0: AHA += lamda * Identity` applied to `x` -/
-def cgSys (A : V → W) (AH : W → V) (lam : S) (x : V) : V :=
-  if lam ≠ 0 then AH (A x) + lam • x else AH (A x)
-
-/-- `AHy = A.H(y); if lamda != 0: if z is not None: AHy = AHy + lamda * z` -/
-def cgRhs (AH : W → V) (y : W) (lam : S) (z : Option V) : V :=
-  if lam ≠ 0 then addLamZ lam z (AH y) else AH y
-
-/-! ### `_get_GradientMethod`: `GradientMethod(gradf, x, alpha, proxg=proxg, accelerate=…)` -/
-
-/-- the closure `gradf` -/
-def gmGrad (A : V → W) (AH : W → V) (y : W) (lam : S) (z : Option V) (x : V) : V :=
-  let g := AH (A x) - AH y
-  if lam ≠ 0 then
-    match z with
-    | none => g + lam • x
-    | some z => g + lam • (x - z)
-  else g
-
-/-- the operator handed to `MaxEig` when `alpha is None` (same expression as the CG system) -/
-def gmEigOp (A : V → W) (AH : W → V) (lam : S) (x : V) : V := cgSys A AH lam x
-
-/-- `alpha` given, else `1 if max_eig == 0 else 1 / max_eig` -/
-def gmAlpha (alpha : Option S) (maxEig : S) : S :=
-  match alpha with
-  | some a => a
-  | none => if maxEig = 0 then 1 else 1 / maxEig
-
-/-! ### prox descriptions (`sigpy.prox` objects the PDHG set-up builds) -/
-
-/-- a tree of `sigpy.prox` objects on the space `V`; `user` is the caller's `proxg` -/
-inductive PD (S V : Type) where
-  | noop
-  | user
-  | l2reg (lam : S) (y : Option V)
-  | l2regThen (lam : S) (y : Option V) (h : PD S V)
-  | conj (p : PD S V)
-
-/-- `L2Reg._prox` before `proxh`: `output = input (+ lamda*alpha*y); output /= 1 + lamda*alpha` -/
-def l2regOut (lam : S) (y : Option V) (a : S) (v : V) : V :=
-  match y with
-  | none => (1 / (1 + lam * a)) • v
-  | some y => (1 / (1 + lam * a)) • (v + (lam * a) • y)
-
-/-- `Prox.__call__(alpha, input)` of the tree -/
-def PD.eval (user : S → V → V) : PD S V → S → V → V
-  | .noop, _, v => v
-  | .user, a, v => user a v
-  | .l2reg lam y, a, v => l2regOut lam y a v
-  | .l2regThen lam y h, a, v => h.eval user (a / (1 + lam * a)) (l2regOut lam y a v)
-  | .conj p, a, v => v - a • p.eval user (1 / a) ((1 / a) • v)
-
-/-! ### `_get_PrimalDualHybridGradient` -/
-
-/-- arguments handed to `PrimalDualHybridGradient` (the stacked operator is `K x = (A x, G x)`,
-    `Kᴴ (u₁,u₂) = Aᴴ u₁ + Gᴴ u₂`; `Stack([p1, p2])` acts blockwise) -/
-structure PdhgSetup (S V W U : Type) where
-  proxfc1 : PD S W
-  proxfc2 : Option (PD S U)
-  proxg : PD S V
-  gammaP : S
-  gammaD : S
-
-def pdhgSetup (y : W) (lam : S) (z : Option V) (hasProxg hasG : Bool) : PdhgSetup S V W U :=
-  let gammaP : S := if 0 < lam then lam else 0
-  if hasG then
-    { proxfc1 := .l2reg 1 (some (-y))
-      proxfc2 := some (.conj (if hasProxg then .user else .noop))
-      proxg := if 0 < lam then .l2reg lam z else .noop
-      gammaP := gammaP
-      gammaD := 0 }
-  else
-    { proxfc1 := .l2reg 1 (some (-y))
-      proxfc2 := none
-      proxg := if 0 < lam then (if hasProxg then .l2regThen lam z .user else .l2reg lam z)
-               else (if hasProxg then .user else .noop)
-      gammaP := gammaP
-      gammaD := 1 }
-
-/-- which operator goes to `MaxEig`: `tau is None` → primal `Kᴴ S K`; `tau` given, `sigma is None`
-    → dual `K T Kᴴ`; both given → none -/
-inductive EigSide where
-  | primal (sigma : S)
-  | dual (tau : S)
-  | none
-
-def pdhgEigSide (tau sigma : Option S) : EigSide (S := S) :=
-  match tau, sigma with
-  | none, none => .primal 1
-  | none, some s => .primal s
-  | some t, none => .dual t
-  | some _, some _ => .none
-
-/-- `(tau, sigma)` after the set-up, `maxEig` being what `MaxEig(...).run()` returned -/
-def pdhgSteps (tau sigma : Option S) (maxEig : S) : S × S :=
-  match tau, sigma with
-  | none, none => (1 / maxEig, 1)
-  | none, some s => (1 / maxEig, s)
-  | some t, none => (t, 1 / maxEig)
-  | some t, some s => (t, s)
-
-/-! ### `_get_ADMM`: the closures `minL_x`, `minL_v` and the constraint `G x - v = 0` -/
-
-/-- `AHA` of `minL_x` without `G`: `A.N + (lamda + rho) * I` -/
-def admmSysNoG (A : V → W) (AH : W → V) (lam rho : S) (x : V) : V :=
-  AH (A x) + (lam + rho) • x
-
-/-- `AHy` of `minL_x` without `G`: `A.H y + rho (v - u) (+ lamda z)` -/
-def admmRhsNoG (AH : W → V) (y : W) (lam : S) (z : Option V) (rho : S) (v u : V) : V :=
-  addLamZ lam z (AH y + rho • (v - u))
-
-/-- `AHA` of `minL_x` with `G`: `A.N (+ lamda I if lamda > 0) + rho G.H G` -/
-def admmSysG (A : V → W) (AH : W → V) (G : V → U) (GH : U → V) (lam rho : S) (x : V) : V :=
-  (if 0 < lam then AH (A x) + lam • x else AH (A x)) + rho • GH (G x)
-
-/-- `AHy` of `minL_x` with `G`: `A.H y + rho G.H(v - u) (+ lamda z)` -/
-def admmRhsG (AH : W → V) (GH : U → V) (y : W) (lam : S) (z : Option V) (rho : S) (v u : U) : V :=
-  addLamZ lam z (AH y + rho • GH (v - u))
-
-/-- `minL_v`: `v = G x + u; if proxg is not None: v = proxg(1 / rho, v)` -/
-def admmV (proxg : Option (S → U → U)) (rho : S) (Gx u : U) : U :=
-  match proxg with
-  | none => Gx + u
-  | some p => p (1 / rho) (Gx + u)
-
-/-- `ADMM._update` with `A = G`, `B = -I`, `c = 0`: `u += G x - v` -/
-def admmU (u Gx v : U) : U := u + (Gx - v)
 
 /-! ### `objective()` -/
 
@@ -328,59 +181,46 @@ def iterate {α : Type} (f : α → α) : Nat → α → List α
   | 0, _ => []
   | k + 1, a => let b := f a; b :: iterate f k b
 
-/-! ### `PrimalDualHybridGradient` over `Rat` (dual variable in two blocks) -/
+/-! ### `PrimalDualHybridGradient` over `Rat`, generic in the dual space `D` (`RV`, or `Pair RV RV` with `G`);
+     every argument is a field of the generated `PdhgArgs` -/
 
-structure PDState where
+structure PDState (D : Type) where
   x : RV
   xExt : RV
-  u1 : RV
-  u2 : RV
+  u : D
   tau : Rat
   sigma : Rat
   tauMin : Rat
   sigmaMin : Rat
 
-def pdhgStep (I : Inst) (su : PdhgSetup Rat RV RV RV) (s : PDState) : PDState :=
-  let K1 := I.Af s.xExt
-  let u1 := su.proxfc1.eval (fun _ v => v) s.sigma (s.u1 + s.sigma • K1)
-  let (u2, KHu) :=
-    match I.G, su.proxfc2 with
-    | some G, some p2 =>
-      let u2 := p2.eval I.userProx s.sigma (s.u2 + s.sigma • G.mulVec s.xExt)
-      (u2, I.AHf u1 + G.tMulVec u2)
-    | _, _ => (s.u2, I.AHf u1)
-  let x := su.proxg.eval I.userProx s.tau (s.x - s.tau • KHu)
+def pdhgStep {D : Type} [Add D] [SMul Rat D] (K : RV → D) (KH : D → RV) (proxfc : Rat → D → D)
+    (proxg : Rat → RV → RV) (gammaP gammaD : Rat) (s : PDState D) : PDState D :=
+  let u := proxfc s.sigma (s.u + s.sigma • K s.xExt)
+  let x := proxg s.tau (s.x - s.tau • KH u)
   let xd := x - s.x
-  if 0 < su.gammaP ∧ su.gammaD = 0 then
-    let theta := 1 / sqrtApprox (1 + 2 * su.gammaP * s.tauMin)
-    { x := x, xExt := x + theta • xd, u1 := u1, u2 := u2, tau := s.tau * theta, sigma := s.sigma / theta,
+  if 0 < gammaP ∧ gammaD = 0 then
+    let theta := 1 / sqrtApprox (1 + 2 * gammaP * s.tauMin)
+    { x := x, xExt := x + theta • xd, u := u, tau := s.tau * theta, sigma := s.sigma / theta,
       tauMin := s.tauMin * theta, sigmaMin := s.sigmaMin }
-  else if su.gammaP = 0 ∧ 0 < su.gammaD then
-    let theta := 1 / sqrtApprox (1 + 2 * su.gammaD * s.sigmaMin)
-    { x := x, xExt := x + theta • xd, u1 := u1, u2 := u2, tau := s.tau / theta, sigma := s.sigma * theta,
+  else if gammaP = 0 ∧ 0 < gammaD then
+    let theta := 1 / sqrtApprox (1 + 2 * gammaD * s.sigmaMin)
+    { x := x, xExt := x + theta • xd, u := u, tau := s.tau / theta, sigma := s.sigma * theta,
       tauMin := s.tauMin, sigmaMin := s.sigmaMin * theta }
   else
-    { s with x := x, xExt := x + (1 : Rat) • xd, u1 := u1, u2 := u2 }
+    { s with x := x, xExt := x + (1 : Rat) • xd, u := u }
 
-/-! ### `ADMM` over `Rat` with the set-up's closures -/
+/-! ### `ADMM` over `Rat` with the generated closures -/
 
 structure ADState where
   x : RV
   v : RV
   u : RV
 
-def admmStep (I : Inst) (rho : Rat) (P : Option (RV → RV)) (maxCg : Nat) (s : ADState) : ADState :=
-  let pr : Option (Rat → RV → RV) := I.prox.map fun p => p.eval
-  match I.G with
-  | none =>
-    let x := cgRun (admmSysNoG I.Af I.AHf I.lam rho) P (admmRhsNoG I.AHf I.y I.lam I.z rho s.v s.u) s.x maxCg
-    let v := admmV pr rho x s.u
-    { x := x, v := v, u := admmU s.u x v }
-  | some G =>
-    let x := cgRun (admmSysG I.Af I.AHf G.mulVec G.tMulVec I.lam rho) P
-      (admmRhsG I.AHf G.tMulVec I.y I.lam I.z rho s.v s.u) s.x maxCg
-    let Gx := G.mulVec x
-    let v := admmV pr rho Gx s.u
-    { x := x, v := v, u := admmU s.u Gx v }
+/-- `ADMM._update`: `minL_x(); minL_z(); u += A x + B z - c` (`c` a number: subtracted entrywise) -/
+def admmStep (a : AdmmArgs Rat RV RV) (P : Option (RV → RV)) (maxCg : Nat) (s : ADState) : ADState :=
+  let cg := a.minLx s.x s.v s.u
+  let x := cgRun cg.sys P cg.rhs s.x maxCg
+  let v := a.minLv x s.v s.u
+  { x := x, v := v, u := s.u + ⟨(a.A x + a.B v).d.map (· - a.c)⟩ }
 
 end SigpyVerif.C14
